@@ -210,6 +210,7 @@ def r3(ctx) -> None:
             ctx.ob("C09-R3", "create_aligned_global_axes/first-dataset-defines-axis", lib.guarded_by(fl, d.stmt, none_test) is not None, fi, d.stmt,
                    "only the first dataset initialises the accumulated axis")
     sts = [(t, s_) for t, s_ in lib.stores(fi) if isinstance(t, ast.Subscript) and norm(t.value) == "aligned_global_axes"]
+    ctx.sites('C09-R3', "sites iterated at rules/c09.py:213 (sts)", len(sts), 1)
     for t, s_ in sts:
         v = s_.value
         okv = isinstance(v, ast.Name) and any(dd.kind == "assign" and isinstance(dd.value, ast.ListComp) and "align_index" in norm(dd.value)
